@@ -417,8 +417,8 @@ Proof.
   pose proof (alloc_ok [] st (t, v) I) as I1. split.
   - pose proof (pset_ok [] (snd (alloc (t, v) st)) d (Live (Some (st_next st))) Hlt I1) as H.
     unfold pget in H; simpl in H. unfold pget in Hd. rewrite Hd in H. exact H.
-  - views_goal. rewrite view_pset, nth_upd, nth_views, length_views. simpl. rewrite Nat.eqb_refl.
-    rewrite (view_alloc _ _ _ _ I). auto.
+  - views_goal. rewrite view_pset, (view_alloc _ _ _ _ I), nth_upd, nth_views, length_views. simpl.
+    rewrite Nat.eqb_refl. auto.
 Qed.
 
 Lemma copy_ctor_ok st d s : inv st -> is_free d st = true -> is_live s st = true ->
@@ -430,9 +430,729 @@ Proof.
     pose proof (alloc_ok [] st (t, v) I) as I1. split.
     + pose proof (pset_ok [] (snd (alloc (t, v) st)) d (Live (Some (st_next st))) Hlt I1) as H.
       unfold pget in H; simpl in H. unfold pget in Hd. rewrite Hd in H. exact H.
-    + views_goal. rewrite view_pset, nth_upd, nth_views, length_views. simpl. rewrite Nat.eqb_refl.
-      rewrite (view_alloc _ _ _ _ I). rewrite (view_holds _ _ _ _ _ Hs Hc). auto.
+    + views_goal. rewrite view_pset, (view_alloc _ _ _ _ I), nth_upd, nth_views, length_views. simpl.
+      rewrite Nat.eqb_refl. rewrite (view_holds _ _ _ _ _ Hs Hc). auto.
   - simpl. split.
     + pose proof (pset_ok [] st d (Live None) Hlt I) as H. rewrite Hd in H. exact H.
     + views_goal. rewrite view_pset, nth_upd, nth_views, length_views. rewrite (view_empty _ _ Hs). auto.
+Qed.
+
+Lemma view_live d st : is_live d st = true -> view_of d st = vslot (st_heap st) (Live (content d st)).
+Proof. intro L. unfold view_of. rewrite (is_live_content _ _ L). auto. Qed.
+
+Lemma swap_inv X st a b : invx X st -> is_live a st = true -> is_live b st = true -> invx X (m_swap a b st).
+Proof.
+  intros I La Lb. pose proof (is_live_lt _ _ La) as Ha. pose proof (is_live_lt _ _ Lb) as Hb.
+  pose proof (is_live_content _ _ La) as Ca. pose proof (is_live_content _ _ Lb) as Cb.
+  unfold m_swap, set_content. constructor; simpl; try apply I.
+  intro x. rewrite <- (ix_own _ _ I x). f_equal.
+  assert (Hb' : b < length (upd a (Live (content b st)) (st_pool st))) by (rewrite length_upd; auto).
+  pose proof (cnt_refs_upd x b (Live (content a st)) _ Hb') as E1.
+  pose proof (cnt_refs_upd x a (Live (content b st)) _ Ha) as E2.
+  unfold pget in Ca, Cb. rewrite Ca in E2. rewrite nth_upd in E1.
+  destruct (Nat.eqb_spec a b) as [e|ne]; cbn [andb] in E1.
+  - subst b. apply Nat.ltb_lt in Ha. rewrite Ha in E1. lia.
+  - rewrite Cb in E1. lia.
+Qed.
+
+Lemma swap_ok st d s : inv st -> is_live d st = true -> is_live s st = true ->
+  inv (m_swap d s st) /\ views (m_swap d s st) = upd s (view_of d st) (upd d (view_of s st) (views st)).
+Proof.
+  intros I Ld Ls. split; [apply swap_inv; auto|].
+  pose proof (is_live_content _ _ Ld) as Cd. pose proof (is_live_content _ _ Ls) as Cs.
+  unfold m_swap, set_content. views_goal.
+  rewrite !view_pset, !nth_upd, nth_views, !length_upd, length_views. simpl. rewrite length_upd.
+  rewrite (view_live _ _ Ld), (view_live _ _ Ls). reflexivity.
+Qed.
+
+Lemma move_ctor_ok st d s : inv st -> is_free d st = true -> is_live s st = true ->
+  inv (m_move_ctor d s st) /\
+  views (m_move_ctor d s st) = upd s VEmpty (upd d (view_of s st) (views st)).
+Proof.
+  intros I F L. destruct (is_free_lt _ _ F) as [Hlt Hd]. pose proof (is_live_content _ _ L) as Hs.
+  pose proof (is_live_lt _ _ L) as Hls.
+  assert (ne : s <> d) by (intro; subst; rewrite Hd in Hs; discriminate).
+  unfold m_move_ctor, set_content. split.
+  - rewrite pset_comm by auto.
+    pose proof (pset_ok [] st s (Live None) Hls I) as I1. rewrite Hs, srefs_live in I1.
+    assert (Hlt' : d < length (st_pool (pset s (Live None) st))) by (simpl; rewrite length_upd; auto).
+    pose proof (pset_ok [] _ d (Live (content s st)) Hlt') as I2. rewrite srefs_live in I2. specialize (I2 I1).
+    unfold pget in I2 at 1. simpl in I2. rewrite nth_upd_other in I2 by auto. unfold pget in Hd. rewrite Hd in I2.
+    exact I2.
+  - views_goal. rewrite !view_pset, !nth_upd, nth_views, !length_upd, length_views. simpl. rewrite length_upd.
+    rewrite (view_live _ _ L). reflexivity.
+Qed.
+
+Lemma copy_assign_ok st d s : inv st -> is_live d st = true -> is_live s st = true ->
+  inv (m_copy_assign d s st) /\ views (m_copy_assign d s st) = upd d (view_of s st) (views st).
+Proof.
+  intros I Ld Ls. pose proof (is_live_lt _ _ Ld) as Hlt.
+  pose proof (is_live_content _ _ Ld) as Cd. pose proof (is_live_content _ _ Ls) as Cs.
+  unfold m_copy_assign, set_content. destruct (content s st) as [ls|] eqn:Es.
+  - destruct (inv_owned _ _ _ _ I Cs) as [[t v] Hc]. rewrite (clone_some _ _ _ Hc).
+    pose proof (alloc_ok [] st (t, v) I) as I1.
+    set (st1 := snd (alloc (t, v) st)) in *.
+    assert (Cd1 : pget d st1 = Live (content d st1)) by exact Cd.
+    pose proof (pset_ok [] st1 d (Live (Some (st_next st))) Hlt I1) as I2.
+    rewrite Cd1, srefs_live in I2. split.
+    + apply (delete_opt_ok [] _ _ I2).
+    + views_goal. rewrite (view_delete_opt [] _ _ _ I2), view_pset. unfold st1 at 3.
+      rewrite (view_alloc _ _ _ _ I), nth_upd, nth_views, length_views. simpl. rewrite Nat.eqb_refl.
+      rewrite (view_holds _ _ _ _ _ Cs Hc). auto.
+  - simpl.
+    pose proof (pset_ok [] st d (Live None) Hlt I) as I2. rewrite Cd, srefs_live in I2. split.
+    + apply (delete_opt_ok [] _ _ I2).
+    + views_goal. rewrite (view_delete_opt [] _ _ _ I2), view_pset, nth_upd, nth_views, length_views.
+      rewrite (view_empty _ _ Cs). auto.
+Qed.
+
+Lemma is_live_swap e a b st : is_live e (m_swap a b st) = is_live e st \/ is_live e (m_swap a b st) = true.
+Proof.
+  unfold m_swap, set_content, is_live, pget, pset; simpl. rewrite !nth_upd.
+  destruct (Nat.eqb b e && _); auto. destruct (Nat.eqb a e && _); auto.
+Qed.
+
+Lemma move_assign_self st d : m_move_assign d d st = st.
+Proof. unfold m_move_assign. rewrite Nat.eqb_refl. auto. Qed.
+
+Lemma move_assign_ok st d s : inv st -> is_live d st = true -> is_live s st = true -> d <> s ->
+  inv (m_move_assign d s st) /\
+  views (m_move_assign d s st) = upd s VEmpty (upd d (view_of s st) (views st)).
+Proof.
+  intros I Ld Ls ne. pose proof (is_live_lt _ _ Ls) as Hlt.
+  unfold m_move_assign. apply Nat.eqb_neq in ne. rewrite ne. apply Nat.eqb_neq in ne.
+  destruct (swap_ok st s d I Ls Ld) as [I1 V1].
+  set (st1 := m_swap s d st) in *.
+  assert (Ls1 : is_live s st1 = true) by (destruct (is_live_swap s s d st) as [E|E]; fold st1 in E; congruence).
+  assert (Hlt1 : s < length (st_pool st1)) by (apply is_live_lt; auto).
+  pose proof (pset_ok [] st1 s (Live None) Hlt1 I1) as I2.
+  rewrite (is_live_content _ _ Ls1), srefs_live in I2. unfold set_content. split.
+  - apply (delete_opt_ok [] _ _ I2).
+  - views_goal.
+    rewrite (view_delete_opt [] _ _ _ I2), view_pset. rewrite <- nth_views, V1. simpl.
+    rewrite !nth_upd, !length_upd, nth_views, length_views.
+    assert (Hb : (s <? length (st_pool st)) = true) by (apply Nat.ltb_lt; auto).
+    assert (Hbd : (d <? length (st_pool st)) = true) by (apply Nat.ltb_lt, is_live_lt; auto).
+    rewrite ?Hb, ?Hbd, ?andb_true_r.
+    destruct (Nat.eqb_spec s e); simpl; auto.
+Qed.
+
+Lemma value_assign_ok st d t v : inv st -> is_live d st = true ->
+  inv (m_value_assign d t v st) /\ views (m_value_assign d t v st) = upd d (VHolds t v) (views st).
+Proof.
+  intros I Ld. pose proof (is_live_lt _ _ Ld) as Hlt. pose proof (is_live_content _ _ Ld) as Cd.
+  unfold m_value_assign, set_content.
+  change (alloc (t, v) st) with (st_next st, snd (alloc (t, v) st)). cbv iota beta.
+  pose proof (alloc_ok [] st (t, v) I) as I1.
+  set (st1 := snd (alloc (t, v) st)) in *.
+  assert (Cd1 : pget d st1 = Live (content d st1)) by exact Cd.
+  pose proof (pset_ok [] st1 d (Live (Some (st_next st))) Hlt I1) as I2.
+  rewrite Cd1, srefs_live in I2. split.
+  - apply (delete_opt_ok [] _ _ I2).
+  - views_goal. rewrite (view_delete_opt [] _ _ _ I2), view_pset. unfold st1 at 3.
+    rewrite (view_alloc _ _ _ _ I), nth_upd, nth_views, length_views. simpl. rewrite Nat.eqb_refl. auto.
+Qed.
+
+Lemma reset_ok st d : inv st -> is_live d st = true ->
+  inv (m_reset d st) /\ views (m_reset d st) = upd d VEmpty (views st).
+Proof.
+  intros I Ld. pose proof (is_live_lt _ _ Ld) as Hlt. pose proof (is_live_content _ _ Ld) as Cd.
+  unfold m_reset, set_content.
+  pose proof (pset_ok [] st d (Live None) Hlt I) as I2. rewrite Cd, srefs_live in I2. split.
+  - apply (delete_opt_ok [] _ _ I2).
+  - views_goal. rewrite (view_delete_opt [] _ _ _ I2), view_pset, nth_upd, nth_views, length_views. auto.
+Qed.
+
+(* ~any(): the destructor runs on the object, then the object is gone *)
+Lemma destroy_ok st d : inv st -> is_live d st = true ->
+  inv (m_destroy d st) /\ views (m_destroy d st) = upd d VDead (views st).
+Proof.
+  intros I Ld. pose proof (is_live_lt _ _ Ld) as Hlt. pose proof (is_live_content _ _ Ld) as Cd.
+  unfold m_destroy.
+  (* same state as: remove the object from the pool first, then delete what it owned *)
+  assert (E : pset d Dead (delete_content (content d st) st) = delete_content (content d st) (pset d Dead st)).
+  { destruct (content d st); simpl; auto. destruct (hget l (st_heap st)); reflexivity. }
+  rewrite E.
+  pose proof (pset_ok [] st d Dead Hlt I) as I2. rewrite Cd, srefs_live in I2. split.
+  - apply (delete_opt_ok [] _ _ I2).
+  - views_goal. rewrite (view_delete_opt [] _ _ _ I2), view_pset, nth_upd, nth_views, length_views. auto.
+Qed.
+
+(* assignment to the held object through a pointer / reference obtained from any_cast *)
+Lemma write_ok st d l t v0 v : inv st -> pget d st = Live (Some l) -> hget l (st_heap st) = Some (t, v0) ->
+  inv (write_at l t v st) /\ views (write_at l t v st) = upd d (VHolds t v) (views st).
+Proof.
+  intros I Hd Hl. split.
+  - constructor; simpl; try apply I; intro x; rewrite keys_hset; apply I.
+  - views_goal. unfold view_of, pget, write_at; simpl.
+    rewrite nth_upd, nth_views, length_views.
+    destruct (Nat.eqb_spec d e) as [E|E]; simpl.
+    + subst e. unfold pget in Hd. rewrite Hd. pose proof (nth_live_lt _ _ _ Hd) as Hlt.
+      apply Nat.ltb_lt in Hlt. rewrite Hlt. simpl. rewrite hget_hset_same by congruence. auto.
+    + unfold view_of, pget. apply vslot_frame. intros l' Hl'. apply hget_hset_other.
+      intro; subst l'. apply E. eapply inv_unique; eauto.
+Qed.
+
+(* ------------------------------------------------------------------ queries and casts *)
+
+Lemma has_value_spec d st : is_live d st = true ->
+  m_has_value d st = match view_of d st with VEmpty => false | _ => true end.
+Proof.
+  intro L. unfold m_has_value. rewrite (view_live _ _ L). destruct (content d st) as [l|]; simpl; auto.
+  destruct (hget l (st_heap st)) as [[t v]|]; auto.
+Qed.
+
+Lemma type_spec d st : is_live d st = true ->
+  match m_type d st with TVoid => RType None | TTag t => RType (Some t) | TBad l => RFault (UseAfterFree l) end =
+  match view_of d st with VHolds t _ => RType (Some t) | VDangling l => RFault (UseAfterFree l) | _ => RType None end.
+Proof.
+  intro L. unfold m_type. rewrite (view_live _ _ L). destruct (content d st) as [l|]; simpl; auto.
+  destruct (hget l (st_heap st)) as [[t v]|]; auto.
+Qed.
+
+Lemma cast_ptr_spec d t st : read_ptr (any_cast_ptr d t st) st = spec_cast_ptr (view_of d st) t.
+Proof.
+  unfold any_cast_ptr, m_type, content, view_of. destruct (pget d st) as [|[l|]]; simpl; auto.
+  destruct (hget l (st_heap st)) as [[t' v]|] eqn:E; simpl; auto.
+  destruct (Nat.eqb t' t); simpl; auto. rewrite E. auto.
+Qed.
+
+Lemma cast_val_spec d t st : is_live d st = true ->
+  read_val (any_cast_ref d t st) st = spec_cast_val (view_of d st) t.
+Proof.
+  intro L. unfold any_cast_ref, any_cast_ptr, m_type, content, view_of, is_live in *.
+  destruct (pget d st) as [|[l|]]; simpl; auto; try discriminate.
+  destruct (hget l (st_heap st)) as [[t' v]|] eqn:E; simpl; auto.
+  destruct (Nat.eqb t' t); simpl; auto. rewrite E. auto.
+Qed.
+
+Inductive cast_case (st : state) (d : cid) (t : tag) : Prop :=
+| CC_miss : any_cast_ptr d t st = PNull -> spec_holds (view_of d st) t = false ->
+            (forall l, view_of d st <> VDangling l) -> cast_case st d t
+| CC_hit l v0 : any_cast_ptr d t st = PTo l -> pget d st = Live (Some l) ->
+            hget l (st_heap st) = Some (t, v0) -> view_of d st = VHolds t v0 -> cast_case st d t.
+
+Lemma cast_cases st d t : inv st -> cast_case st d t.
+Proof.
+  intro I. destruct (pget d st) as [|[l|]] eqn:P.
+  - apply CC_miss; unfold any_cast_ptr, view_of; rewrite P; simpl; auto; discriminate.
+  - destruct (inv_owned _ _ _ _ I P) as [[t' v0] Hc].
+    destruct (Nat.eqb_spec t' t) as [E|E].
+    + subst t'. apply (CC_hit _ _ _ l v0); auto.
+      * unfold any_cast_ptr, m_type, content. rewrite P, Hc, Nat.eqb_refl. auto.
+      * apply (view_holds _ _ _ _ _ P Hc).
+    + apply Nat.eqb_neq in E.
+      apply CC_miss; unfold any_cast_ptr, m_type, content, view_of; rewrite P; simpl; rewrite Hc; simpl; try rewrite E; auto; discriminate.
+  - apply CC_miss; unfold any_cast_ptr, m_type, content, view_of; rewrite P; simpl; auto; discriminate.
+Qed.
+
+Lemma spec_set_miss x t v : spec_holds x t = false -> spec_set x t v = x.
+Proof. destruct x; simpl; auto. intro H. rewrite H. auto. Qed.
+
+Lemma upd_views_same d st : upd d (view_of d st) (views st) = views st.
+Proof. rewrite <- nth_views. apply upd_same. Qed.
+
+(* ------------------------------------------------------------------ the step function refines the value-level specification *)
+
+Theorem step_refines_spec st o : inv st ->
+  inv (fst (step o st)) /\
+  views (fst (step o st)) = fst (spec_step o (views st)) /\
+  snd (step o st) = snd (spec_step o (views st)).
+Proof.
+  intro I.
+  destruct o; simpl; unfold vget; rewrite ?vfree_views, ?nth_views, ?vlive_view.
+  - (* ODefault *) destruct (is_free d st) eqn:F; simpl; auto. destruct (default_ok _ _ I F); auto.
+  - (* OValue *) destruct (is_free d st) eqn:F; simpl; auto. destruct (value_ctor_ok _ _ t v I F); auto.
+  - (* OCopyCtor *) destruct (is_free d st) eqn:F; simpl; auto. destruct (is_live s st) eqn:L; simpl; auto.
+    destruct (copy_ctor_ok _ _ _ I F L); auto.
+  - (* OMoveCtor *) destruct (is_free d st) eqn:F; simpl; auto. destruct (is_live s st) eqn:L; simpl; auto.
+    destruct (move_ctor_ok _ _ _ I F L); auto.
+  - (* OCopyAssign *) destruct (is_live d st) eqn:Ld; simpl; auto. destruct (is_live s st) eqn:L; simpl; auto.
+    destruct (copy_assign_ok _ _ _ I Ld L); auto.
+  - (* OMoveAssign *) destruct (is_live d st) eqn:Ld; simpl; auto. destruct (is_live s st) eqn:L; simpl; auto.
+    destruct (Nat.eqb_spec d s) as [E|E].
+    + subst. rewrite move_assign_self. auto.
+    + destruct (move_assign_ok _ _ _ I Ld L E); auto.
+  - (* OValueAssign *) destruct (is_live d st) eqn:Ld; simpl; auto. destruct (value_assign_ok _ _ t v I Ld); auto.
+  - (* OReset *) destruct (is_live d st) eqn:Ld; simpl; auto. destruct (reset_ok _ _ I Ld); auto.
+  - (* OSwap *) destruct (is_live d st) eqn:Ld; simpl; auto. destruct (is_live s st) eqn:L; simpl; auto.
+    destruct (swap_ok _ _ _ I Ld L); auto.
+  - (* ODestroy *) destruct (is_live d st) eqn:Ld; simpl; auto. destruct (destroy_ok _ _ I Ld); auto.
+  - (* OHasValue *) destruct (is_live d st) eqn:Ld; simpl; auto. rewrite has_value_spec by auto. auto.
+  - (* OType *) destruct (is_live d st) eqn:Ld; simpl; auto. rewrite type_spec by auto. auto.
+  - (* OCastPtr *) rewrite cast_ptr_spec. auto.
+  - (* OCastCPtr *) unfold any_cast_cptr. rewrite cast_ptr_spec. auto.
+  - (* OCastVal *) destruct (is_live d st) eqn:Ld; simpl; auto. rewrite cast_val_spec by auto. auto.
+  - (* OCastRef *) destruct (is_live d st) eqn:Ld; simpl; auto. rewrite cast_val_spec by auto. auto.
+  - (* OCastCVal *) destruct (is_live d st) eqn:Ld; simpl; auto. unfold any_cast_cref. rewrite cast_val_spec by auto. auto.
+  - (* OCastRVal *) destruct (is_live d st) eqn:Ld; simpl; auto. unfold any_cast_rval. rewrite cast_val_spec by auto. auto.
+  - (* OSetPtr *) destruct (cast_cases st d t I) as [P H N|l v0 P Hp Hl Hv]; rewrite P; simpl.
+    + destruct (view_of d st) eqn:V; simpl in H; try rewrite H; simpl;
+        try (exfalso; eapply N; eauto; fail); rewrite <- V, upd_views_same; auto.
+    + rewrite Hv. simpl. rewrite Nat.eqb_refl. destruct (write_ok _ _ _ _ _ v I Hp Hl); auto.
+  - (* OSetRef *) destruct (is_live d st) eqn:Ld; simpl; auto. unfold any_cast_ref.
+    destruct (cast_cases st d t I) as [P H N|l v0 P Hp Hl Hv]; rewrite P; simpl.
+    + destruct (view_of d st) eqn:V; simpl in H; try rewrite H; simpl;
+        try (exfalso; eapply N; eauto; fail); rewrite <- V, upd_views_same; auto.
+    + rewrite Hv. simpl. rewrite Nat.eqb_refl. destruct (write_ok _ _ _ _ _ v I Hp Hl); auto.
+Qed.
+
+(* ------------------------------------------------------------------ all operation words *)
+
+Lemma run_refines_spec w st : inv st ->
+  inv (fst (run w st)) /\
+  views (fst (run w st)) = fst (spec_run w (views st)) /\
+  snd (run w st) = snd (spec_run w (views st)).
+Proof.
+  revert st; induction w as [|o w IH]; intros st I; simpl; auto.
+  destruct (step_refines_spec st o I) as [I1 [V1 R1]].
+  destruct (step o st) as [st1 r] eqn:E1. destruct (spec_step o (views st)) as [vs1 r'] eqn:E2.
+  simpl in *. subst. specialize (IH st1 I1). destruct IH as [I2 [V2 R2]].
+  destruct (run w st1) as [st2 rs]. destruct (spec_run w (views st1)) as [vs2 rs']. simpl in *.
+  subst. auto.
+Qed.
+
+Lemma exec_inv n w : inv (exec w (init n)).
+Proof. unfold exec. apply run_refines_spec, inv_init. Qed.
+
+(* ------------------------------------------------------------------ consequences of the invariant *)
+
+Lemma inv_dlog_once st x : inv st -> cnt x (st_dlog st) <= 1.
+Proof. intro I. pose proof (ix_log _ _ I x). pose proof (ix_once _ _ I x). lia. Qed.
+
+Lemma inv_keys_nodup st : inv st -> NoDup (keys (st_heap st)).
+Proof. intro I. apply cnt_nodup. intro x. apply (ix_key1 _ _ x I). Qed.
+
+(* a location referenced by a container has not been deleted *)
+Lemma inv_owned_not_deleted st d l : inv st -> pget d st = Live (Some l) -> ~ In l (st_dlog st).
+Proof.
+  intros I H Hin. apply cnt_In in Hin.
+  destruct (inv_owned _ _ _ _ I H) as [c Hc].
+  assert (1 <= cnt l (keys (st_heap st))) by (apply hget_cnt; congruence).
+  pose proof (ix_log _ _ I l). pose proof (ix_once _ _ I l). lia.
+Qed.
+
+Lemma inv_no_dangling st d l : inv st -> view_of d st <> VDangling l.
+Proof.
+  intros I H. unfold view_of in H. destruct (pget d st) as [|[l'|]] eqn:P; simpl in H; try discriminate.
+  destruct (inv_owned _ _ _ _ I P) as [[t v] Hc]. rewrite Hc in H. discriminate.
+Qed.
+
+Lemma spec_no_fault o vs f :
+  (forall d l, nth d vs VDead <> VDangling l) -> snd (spec_step o vs) <> RFault f.
+Proof.
+  intro N.
+  destruct o; simpl; unfold vget, spec_cast_ptr, spec_cast_val;
+    repeat match goal with
+           | |- context [if ?b then _ else _] => destruct b; simpl
+           | |- context [match nth ?d vs VDead with _ => _ end] =>
+               let V := fresh "V" in destruct (nth d vs VDead) eqn:V; simpl; try (exfalso; eapply N; eauto; fail)
+           end; try discriminate.
+Qed.
+
+Lemma step_no_fault st o f : inv st -> snd (step o st) <> RFault f.
+Proof.
+  intro I. destruct (step_refines_spec st o I) as [_ [_ R]]. rewrite R.
+  apply spec_no_fault. intros d l. rewrite nth_views. apply inv_no_dangling; auto.
+Qed.
+
+Lemma run_no_fault w st f : inv st -> ~ In (RFault f) (snd (run w st)).
+Proof.
+  revert st; induction w as [|o w IH]; intros st I; simpl; auto.
+  pose proof (step_no_fault st o f I) as N.
+  destruct (step_refines_spec st o I) as [I1 _].
+  destruct (step o st) as [st1 r]. simpl in *. specialize (IH st1 I1).
+  destruct (run w st1) as [st2 rs]. simpl in *. intros [H|H]; auto.
+Qed.
+
+(* ------------------------------------------------------------------ no leak *)
+
+Lemma view_dead_iff d st : view_of d st = VDead <-> pget d st = Dead.
+Proof.
+  unfold view_of. destruct (pget d st) as [|[l|]]; simpl; split; auto; try discriminate.
+  destruct (hget l (st_heap st)) as [[t v]|]; discriminate.
+Qed.
+
+Lemma refs_all_dead p : (forall d, nth d p Dead = Dead) -> refs p = [].
+Proof.
+  induction p as [|a r IH]; intro H; simpl; auto.
+  pose proof (H 0) as H0. simpl in H0. subst a. simpl. apply IH. intro d. apply (H (S d)).
+Qed.
+
+Lemma cnt_all_zero l : (forall x, cnt x l = 0) -> l = [].
+Proof. destruct l as [|y r]; auto. intro H. specialize (H y). simpl in H. rewrite Nat.eqb_refl in H. lia. Qed.
+
+Lemma destroy_fold ds st : inv st ->
+  let st' := fold_left (fun s d => fst (step (ODestroy d) s)) ds st in
+  inv st' /\ (forall d, In d ds -> view_of d st' = VDead) /\ (forall d, view_of d st = VDead -> view_of d st' = VDead).
+Proof.
+  revert st; induction ds as [|d ds IH]; intros st I; cbn [fold_left In].
+  - split; [auto | split; [intros d [] | auto]].
+  - destruct (step_refines_spec st (ODestroy d) I) as [I1 [V1 _]].
+    set (st1 := fst (step (ODestroy d) st)) in *.
+    assert (Hd : view_of d st1 = VDead).
+    { rewrite <- nth_views, V1. simpl. unfold vget. rewrite nth_views.
+      destruct (vlive (view_of d st)) eqn:L; simpl.
+      - rewrite nth_upd, Nat.eqb_refl. simpl. destruct (d <? length (views st)) eqn:E; auto.
+        rewrite nth_overflow; auto. apply Nat.ltb_ge in E. auto.
+      - rewrite nth_views. destruct (view_of d st); auto; discriminate. }
+    assert (Hk : forall e, view_of e st = VDead -> view_of e st1 = VDead).
+    { intros e He. rewrite <- nth_views, V1. simpl. unfold vget. rewrite nth_views.
+      destruct (vlive (view_of d st)); simpl; rewrite ?nth_upd, nth_views; auto.
+      destruct (Nat.eqb d e && _); auto. }
+    destruct (IH st1 I1) as [I2 [A B]]. split; [exact I2 | split].
+    + intros e [E|E]; auto. subst. auto.
+    + auto.
+Qed.
+
+Theorem destroy_all_no_leak st : inv st ->
+  let st' := destroy_all st in
+  inv st' /\ st_heap st' = [] /\ Permutation (st_dlog st') (st_alog st') /\ NoDup (st_dlog st') /\
+  (forall d, pget d st' = Dead).
+Proof.
+  intro I. unfold destroy_all.
+  destruct (destroy_fold (seq 0 (length (st_pool st))) st I) as [I' [A _]].
+  set (st' := fold_left _ _ st) in *. simpl.
+  assert (L : length (st_pool st') = length (st_pool st)).
+  { unfold st'. generalize (seq 0 (length (st_pool st))). intro ds. generalize st.
+    induction ds as [|d ds IH]; intro s0; simpl; auto. rewrite IH.
+    simpl. destruct (is_live d s0); simpl; auto. unfold m_destroy. simpl. rewrite length_upd, pool_delete. auto. }
+  assert (D : forall d, pget d st' = Dead).
+  { intro d. destruct (Nat.lt_ge_cases d (length (st_pool st))).
+    - apply view_dead_iff, A, in_seq. lia.
+    - unfold pget. apply nth_overflow. lia. }
+  assert (R : refs (st_pool st') = []) by (apply refs_all_dead; exact D).
+  assert (K : keys (st_heap st') = []).
+  { apply cnt_all_zero. intro x. rewrite <- (ix_own _ _ I' x). rewrite R. auto. }
+  split; [exact I' | split; [| split; [| split; [| exact D]]]].
+  - destruct (st_heap st'); auto; discriminate.
+  - apply cnt_perm. intro x. rewrite (ix_log _ _ I' x), K. simpl. lia.
+  - apply cnt_nodup. intro x. apply inv_dlog_once; auto.
+Qed.
+
+(* ------------------------------------------------------------------ what the self test of move assignment is for *)
+
+Lemma move_assign_nocheck_self_releases st d : is_live d st = true ->
+  view_of d (m_move_assign_nocheck d d st) = VEmpty.
+Proof.
+  intro L. pose proof (is_live_lt _ _ L) as Hlt. apply view_empty.
+  unfold m_move_assign_nocheck, pget. rewrite pool_delete. unfold set_content, m_swap, set_content. simpl.
+  apply nth_upd_same. rewrite !length_upd. auto.
+Qed.
+
+(* ------------------------------------------------------------------ instance counters *)
+
+Definition tagtest (t : tag) (h : heap) (l : loc) : bool :=
+  match hget l h with Some (t', _) => Nat.eqb t' t | None => false end.
+Definition tc (t : tag) (h : heap) (ls : list loc) : nat := length (filter (tagtest t h) ls).
+
+Lemma tc_perm t h a b : Permutation a b -> tc t h a = tc t h b.
+Proof.
+  unfold tc. induction 1; simpl; auto.
+  - destruct (tagtest t h x); simpl; auto.
+  - destruct (tagtest t h x), (tagtest t h y); simpl; auto.
+  - congruence.
+Qed.
+
+Lemma tc_cons_other t k c r ls : ~ In k ls -> tc t ((k, c) :: r) ls = tc t r ls.
+Proof.
+  intro H. unfold tc. f_equal. apply filter_ext_in. intros l Hl.
+  unfold tagtest. simpl. destruct (Nat.eqb_spec k l); auto. subst. contradiction.
+Qed.
+
+Lemma tc_keys t h : NoDup (keys h) -> tc t h (keys h) = live_count t (mkSt h 0 [] [] [] []).
+Proof.
+  unfold live_count; simpl. induction h as [|[k [t' v]] r IH]; intro N; simpl; auto.
+  inversion N; subst.
+  change (tc t ((k, (t', v)) :: r) (k :: keys r))
+    with (length (if tagtest t ((k, (t', v)) :: r) k then k :: filter (tagtest t ((k, (t', v)) :: r)) (keys r)
+                  else filter (tagtest t ((k, (t', v)) :: r)) (keys r))).
+  assert (E : tagtest t ((k, (t', v)) :: r) k = Nat.eqb t' t) by (unfold tagtest; simpl; rewrite Nat.eqb_refl; auto).
+  rewrite E. pose proof (tc_cons_other t k (t', v) r (keys r) H1) as T. unfold tc in T, IH.
+  destruct (Nat.eqb t' t); cbn [length]; [f_equal|]; (etransitivity; [exact T | apply IH; auto]).
+Qed.
+
+Lemma tc_refs t h p : tc t h (refs p) = spec_count t (map (vslot h) p).
+Proof.
+  unfold tc, spec_count. induction p as [|a r IH]; simpl; auto.
+  destruct a as [|[l|]]; simpl; auto.
+  unfold tagtest at 1. destruct (hget l h) as [[t' v]|]; simpl; auto.
+  destruct (Nat.eqb t' t); simpl; auto.
+Qed.
+
+(* the number of live holders of type t = the number of containers that hold a t *)
+Theorem live_count_spec t st : inv st -> live_count t st = spec_count t (views st).
+Proof.
+  intro I. unfold views. rewrite <- tc_refs.
+  assert (P : Permutation (refs (st_pool st)) (keys (st_heap st))).
+  { apply cnt_perm. intro x. pose proof (ix_own _ _ I x). simpl in H. lia. }
+  rewrite (tc_perm _ _ _ _ P), tc_keys by (apply inv_keys_nodup; auto). reflexivity.
+Qed.
+
+(* ------------------------------------------------------------------ the property clauses *)
+
+Lemma views_init n : views (init n) = repeat VDead n.
+Proof. unfold views; simpl. induction n; simpl; congruence. Qed.
+
+Lemma c20_ownership n w :
+  let st := exec w (init n) in
+  (forall l c, hget l (st_heap st) = Some c ->
+     exists d, pget d st = Live (Some l) /\ forall e, pget e st = Live (Some l) -> e = d) /\
+  (forall d l, pget d st = Live (Some l) ->
+     (exists c, hget l (st_heap st) = Some c) /\ ~ In l (st_dlog st)) /\
+  NoDup (keys (st_heap st)).
+Proof.
+  pose proof (exec_inv n w) as I. simpl. split; [|split].
+  - intros l c H. destruct (inv_no_orphan _ _ _ I H) as [d Hd]. exists d. split; auto.
+    intros e He. eapply inv_unique; eauto.
+  - intros d l H. split; [eapply inv_owned; eauto | eapply inv_owned_not_deleted; eauto].
+  - apply inv_keys_nodup; auto.
+Qed.
+
+Lemma c20_inv_inductive :
+  (forall n, inv (init n)) /\ (forall o st, inv st -> inv (fst (step o st))).
+Proof. split; [apply inv_init | intros o st I; apply (step_refines_spec st o I)]. Qed.
+
+Lemma c20_no_double_free n w :
+  let st := exec w (init n) in
+  NoDup (st_dlog st) /\
+  (forall l, In l (st_dlog st) -> hget l (st_heap st) = None) /\
+  (forall l, ~ In (DoubleFree l) (st_faults st)).
+Proof.
+  pose proof (exec_inv n w) as I. simpl. split; [|split].
+  - apply cnt_nodup. intro x. apply inv_dlog_once; auto.
+  - intros l H. apply cnt_In in H. apply hget_none_cnt.
+    pose proof (ix_log _ _ I l). pose proof (ix_once _ _ I l). lia.
+  - intros l H. rewrite (ix_nofault _ _ I) in H. destruct H.
+Qed.
+
+Lemma c20_no_use_after_free n w :
+  let st := exec w (init n) in
+  st_faults st = [] /\
+  (forall f, ~ In (RFault f) (snd (run w (init n)))) /\
+  (forall d l, view_of d st <> VDangling l).
+Proof.
+  pose proof (exec_inv n w) as I. simpl. split; [|split].
+  - apply (ix_nofault _ _ I).
+  - intro f. apply run_no_fault, inv_init.
+  - intros d l. apply inv_no_dangling; auto.
+Qed.
+
+Lemma c20_no_leak n w :
+  let st := destroy_all (exec w (init n)) in
+  st_heap st = [] /\ Permutation (st_dlog st) (st_alog st) /\ NoDup (st_dlog st) /\ st_faults st = [].
+Proof.
+  destruct (destroy_all_no_leak _ (exec_inv n w)) as [I [H [P [N _]]]]. simpl.
+  repeat split; auto. apply (ix_nofault _ _ I).
+Qed.
+
+Lemma c20_value_semantics n w :
+  views (exec w (init n)) = fst (spec_run w (repeat VDead n)) /\
+  snd (run w (init n)) = snd (spec_run w (repeat VDead n)) /\
+  (forall t, live_count t (exec w (init n)) = spec_count t (fst (spec_run w (repeat VDead n)))).
+Proof.
+  destruct (run_refines_spec w (init n) (inv_init n)) as [I [V R]]. rewrite views_init in *.
+  unfold exec. split; [|split]; auto. intro t. rewrite <- V. apply live_count_spec; auto.
+Qed.
+
+Lemma view_holds_inv d t v st : view_of d st = VHolds t v ->
+  exists l, pget d st = Live (Some l) /\ hget l (st_heap st) = Some (t, v).
+Proof.
+  unfold view_of. destruct (pget d st) as [|[l|]]; simpl; try discriminate.
+  destruct (hget l (st_heap st)) as [[t' v']|] eqn:E; try discriminate.
+  intro H; inversion H; subst. eauto.
+Qed.
+
+Lemma view_live_true d st : vlive (view_of d st) = true -> is_live d st = true.
+Proof. rewrite vlive_view. auto. Qed.
+
+Lemma c20_cast_ok st d t v : view_of d st = VHolds t v ->
+  step (OCastPtr d t) st = (st, RPtr (Some v)) /\ step (OCastCPtr d t) st = (st, RPtr (Some v)) /\
+  step (OCastVal d t) st = (st, RVal v) /\ step (OCastRef d t) st = (st, RVal v) /\
+  step (OCastCVal d t) st = (st, RVal v) /\ step (OCastRVal d t) st = (st, RVal v).
+Proof.
+  intro V. assert (L : is_live d st = true) by (apply view_live_true; rewrite V; auto).
+  simpl. unfold any_cast_cptr, any_cast_cref, any_cast_rval.
+  rewrite L, cast_ptr_spec, cast_val_spec, V by auto. simpl. rewrite Nat.eqb_refl. repeat split; auto.
+Qed.
+
+Lemma c20_cast_wrong_type st d t v t' v' : view_of d st = VHolds t v -> t' <> t ->
+  step (OCastPtr d t') st = (st, RPtr None) /\ step (OCastCPtr d t') st = (st, RPtr None) /\
+  step (OCastVal d t') st = (st, RThrow) /\ step (OCastRef d t') st = (st, RThrow) /\
+  step (OCastCVal d t') st = (st, RThrow) /\ step (OCastRVal d t') st = (st, RThrow) /\
+  step (OSetPtr d t' v') st = (st, RBool false) /\ step (OSetRef d t' v') st = (st, RThrow).
+Proof.
+  intros V ne. assert (L : is_live d st = true) by (apply view_live_true; rewrite V; auto).
+  assert (E : Nat.eqb t t' = false) by (apply Nat.eqb_neq; auto).
+  destruct (view_holds_inv _ _ _ _ V) as [l [P H]].
+  assert (C : any_cast_ptr d t' st = PNull).
+  { unfold any_cast_ptr, m_type, content. rewrite P, H, E. auto. }
+  simpl. unfold any_cast_cptr, any_cast_cref, any_cast_rval, any_cast_ref.
+  rewrite L, C. simpl. repeat split; auto.
+Qed.
+
+Lemma c20_empty_type_void st d t : view_of d st = VEmpty ->
+  step (OType d) st = (st, RType None) /\ step (OHasValue d) st = (st, RBool false) /\
+  step (OCastPtr d t) st = (st, RPtr None) /\ step (OCastCPtr d t) st = (st, RPtr None) /\
+  step (OCastVal d t) st = (st, RThrow) /\ step (OCastRef d t) st = (st, RThrow) /\
+  step (OCastCVal d t) st = (st, RThrow) /\ step (OCastRVal d t) st = (st, RThrow).
+Proof.
+  intro V. assert (L : is_live d st = true) by (apply view_live_true; rewrite V; auto).
+  simpl. unfold any_cast_cptr, any_cast_cref, any_cast_rval.
+  rewrite L, cast_ptr_spec, cast_val_spec, has_value_spec, type_spec, V by auto. simpl. repeat split; auto.
+Qed.
+
+(* a null operand (no container at the index) for the pointer forms *)
+Lemma c20_cast_null_operand st d t : view_of d st = VDead ->
+  step (OCastPtr d t) st = (st, RPtr None) /\ step (OCastCPtr d t) st = (st, RPtr None).
+Proof.
+  intro V. simpl. unfold any_cast_cptr. rewrite cast_ptr_spec, V. auto.
+Qed.
+
+Lemma view_step e o st : inv st -> view_of e (fst (step o st)) = nth e (fst (spec_step o (views st))) VDead.
+Proof. intro I. destruct (step_refines_spec st o I) as [_ [V _]]. rewrite <- V, nth_views. auto. Qed.
+
+Lemma spec_set_frame vs d e t v : d <> e ->
+  nth e (fst (spec_step (OSetPtr d t v) vs)) VDead = nth e vs VDead /\
+  nth e (fst (spec_step (OSetRef d t v) vs)) VDead = nth e vs VDead.
+Proof.
+  intro ne. simpl. unfold vget. split.
+  - destruct (nth d vs VDead); simpl; auto; apply nth_upd_other; auto.
+  - destruct (vlive (nth d vs VDead)); simpl; auto.
+    destruct (nth d vs VDead); simpl; auto; apply nth_upd_other; auto.
+Qed.
+
+(* writing through a cast of one container changes no other container *)
+Lemma c20_write_frame st d e t v : inv st -> d <> e ->
+  view_of e (fst (step (OSetPtr d t v) st)) = view_of e st /\
+  view_of e (fst (step (OSetRef d t v) st)) = view_of e st.
+Proof.
+  intros I ne. rewrite !view_step by auto. destruct (spec_set_frame (views st) d e t v ne) as [A B].
+  rewrite A, B, nth_views. auto.
+Qed.
+
+Lemma distinct_holders st d s l : inv st -> d <> s -> is_live d st = true -> is_live s st = true ->
+  content s st = Some l -> content d st <> Some l.
+Proof.
+  intros I ne Ld Ls Hs Hd. apply ne. apply (inv_unique _ _ _ _ l I).
+  - rewrite (is_live_content _ _ Ld), Hd. auto.
+  - rewrite (is_live_content _ _ Ls), Hs. auto.
+Qed.
+
+Lemma copy_then_write st1 d s x : inv st1 -> d <> s -> view_of d st1 = x -> view_of s st1 = x ->
+  forall t v,
+    view_of s (fst (step (OSetPtr d t v) st1)) = x /\
+    view_of s (fst (step (OSetRef d t v) st1)) = x /\
+    view_of d (fst (step (OSetPtr s t v) st1)) = x /\
+    view_of d (fst (step (OSetRef s t v) st1)) = x.
+Proof.
+  intros I ne Vd Vs t v.
+  destruct (c20_write_frame st1 d s t v I ne) as [A B].
+  destruct (c20_write_frame st1 s d t v I (not_eq_sym ne)) as [C D].
+  rewrite A, B, C, D. auto.
+Qed.
+
+Lemma free_live_ne st d s : is_free d st = true -> is_live s st = true -> d <> s.
+Proof.
+  intros F L E. subst. unfold is_free in F. rewrite L in F. rewrite andb_false_r in F. discriminate.
+Qed.
+
+Lemma c20_copy_ctor_independent st d s : inv st -> is_free d st = true -> is_live s st = true ->
+  let st1 := fst (step (OCopyCtor d s) st) in
+  view_of d st1 = view_of s st /\ view_of s st1 = view_of s st /\
+  (forall l, content s st1 = Some l -> content d st1 <> Some l) /\
+  forall t v,
+    view_of s (fst (step (OSetPtr d t v) st1)) = view_of s st /\
+    view_of s (fst (step (OSetRef d t v) st1)) = view_of s st /\
+    view_of d (fst (step (OSetPtr s t v) st1)) = view_of s st /\
+    view_of d (fst (step (OSetRef s t v) st1)) = view_of s st.
+Proof.
+  intros I F L st1. pose proof (free_live_ne _ _ _ F L) as ne.
+  destruct (is_free_lt _ _ F) as [Hlt _].
+  destruct (step_refines_spec st (OCopyCtor d s) I) as [I1 _]. fold st1 in I1.
+  assert (Vd : view_of d st1 = view_of s st).
+  { unfold st1. rewrite view_step by auto. simpl. unfold vget.
+    rewrite vfree_views, nth_views, vlive_view, F, L. simpl. apply nth_upd_same. rewrite length_views; auto. }
+  assert (Vs : view_of s st1 = view_of s st).
+  { unfold st1. rewrite view_step by auto. simpl. unfold vget.
+    rewrite vfree_views, nth_views, vlive_view, F, L. simpl. rewrite nth_upd_other, nth_views; auto. }
+  split; [auto | split; [auto | split]].
+  - intros l Hl. apply (distinct_holders st1 d s l I1 ne); auto.
+    + apply view_live_true. rewrite Vd, vlive_view; auto.
+    + apply view_live_true. rewrite Vs, vlive_view; auto.
+  - apply copy_then_write; auto.
+Qed.
+
+Lemma c20_copy_assign_independent st d s : inv st -> is_live d st = true -> is_live s st = true -> d <> s ->
+  let st1 := fst (step (OCopyAssign d s) st) in
+  view_of d st1 = view_of s st /\ view_of s st1 = view_of s st /\
+  (forall l, content s st1 = Some l -> content d st1 <> Some l) /\
+  forall t v,
+    view_of s (fst (step (OSetPtr d t v) st1)) = view_of s st /\
+    view_of s (fst (step (OSetRef d t v) st1)) = view_of s st /\
+    view_of d (fst (step (OSetPtr s t v) st1)) = view_of s st /\
+    view_of d (fst (step (OSetRef s t v) st1)) = view_of s st.
+Proof.
+  intros I Ld L ne st1. pose proof (is_live_lt _ _ Ld) as Hlt.
+  destruct (step_refines_spec st (OCopyAssign d s) I) as [I1 _]. fold st1 in I1.
+  assert (Vd : view_of d st1 = view_of s st).
+  { unfold st1. rewrite view_step by auto. simpl. unfold vget.
+    rewrite !nth_views, !vlive_view, Ld, L. simpl. apply nth_upd_same. rewrite length_views; auto. }
+  assert (Vs : view_of s st1 = view_of s st).
+  { unfold st1. rewrite view_step by auto. simpl. unfold vget.
+    rewrite !nth_views, !vlive_view, Ld, L. simpl. rewrite nth_upd_other, nth_views; auto. }
+  split; [auto | split; [auto | split]].
+  - intros l Hl. apply (distinct_holders st1 d s l I1 ne); auto.
+    + apply view_live_true. rewrite Vd, vlive_view; auto.
+    + apply view_live_true. rewrite Vs, vlive_view; auto.
+  - apply copy_then_write; auto.
+Qed.
+
+Lemma c20_moved_from_empty_ctor st d s : inv st -> is_free d st = true -> is_live s st = true ->
+  let st1 := fst (step (OMoveCtor d s) st) in
+  view_of s st1 = VEmpty /\ view_of d st1 = view_of s st /\
+  st_alog st1 = st_alog st /\ st_dlog st1 = st_dlog st /\ st_heap st1 = st_heap st.
+Proof.
+  intros I F L st1. pose proof (free_live_ne _ _ _ F L) as ne.
+  destruct (is_free_lt _ _ F) as [Hlt _]. pose proof (is_live_lt _ _ L) as Hls.
+  split; [|split].
+  - unfold st1. rewrite view_step by auto. simpl. unfold vget.
+    rewrite vfree_views, nth_views, vlive_view, F, L. simpl. apply nth_upd_same. rewrite length_upd, length_views; auto.
+  - unfold st1. rewrite view_step by auto. simpl. unfold vget.
+    rewrite vfree_views, nth_views, vlive_view, F, L. simpl.
+    rewrite nth_upd_other by auto. apply nth_upd_same. rewrite length_views; auto.
+  - unfold st1. simpl. rewrite F, L. simpl. auto.
+Qed.
+
+Lemma c20_moved_from_empty_assign st d s : inv st -> is_live d st = true -> is_live s st = true -> d <> s ->
+  let st1 := fst (step (OMoveAssign d s) st) in
+  view_of s st1 = VEmpty /\ view_of d st1 = view_of s st /\ st_alog st1 = st_alog st.
+Proof.
+  intros I Ld L ne st1. pose proof (is_live_lt _ _ Ld) as Hlt. pose proof (is_live_lt _ _ L) as Hls.
+  assert (E : Nat.eqb d s = false) by (apply Nat.eqb_neq; auto).
+  split; [|split].
+  - unfold st1. rewrite view_step by auto. simpl. unfold vget.
+    rewrite !nth_views, !vlive_view, Ld, L, E. simpl. apply nth_upd_same. rewrite length_upd, length_views; auto.
+  - unfold st1. rewrite view_step by auto. simpl. unfold vget.
+    rewrite !nth_views, !vlive_view, Ld, L, E. simpl.
+    rewrite nth_upd_other by auto. apply nth_upd_same. rewrite length_views; auto.
+  - unfold st1. simpl. rewrite Ld, L. simpl. unfold m_move_assign. rewrite E.
+    destruct (content s (m_swap s d st)); simpl; auto.
+    destruct (hget _ _); auto.
+Qed.
+
+Lemma c20_self_assign_harmless st d : inv st -> is_live d st = true ->
+  (inv (fst (step (OCopyAssign d d) st)) /\ views (fst (step (OCopyAssign d d) st)) = views st /\
+   snd (step (OCopyAssign d d) st) = RUnit) /\
+  step (OMoveAssign d d) st = (st, RUnit) /\
+  (forall b, views (fst (step (OSwap b d d) st)) = views st).
+Proof.
+  intros I L. split; [|split].
+  - destruct (step_refines_spec st (OCopyAssign d d) I) as [I1 [V R]]. split; [auto|split].
+    + rewrite V. simpl. unfold vget. rewrite nth_views, vlive_view, L. simpl. apply upd_views_same.
+    + simpl. rewrite L. auto.
+  - simpl. rewrite L. simpl. rewrite move_assign_self. auto.
+  - intro b. destruct (step_refines_spec st (OSwap b d d) I) as [_ [V _]]. rewrite V. simpl. unfold vget.
+    rewrite nth_views, vlive_view, L. simpl.
+    rewrite upd_views_same. apply upd_views_same.
 Qed.
